@@ -1,9 +1,13 @@
 package main
 
 import (
+	"bytes"
 	"crypto"
 	"crypto/x509"
+	"crypto/x509/pkix"
+	"encoding/asn1"
 	"fmt"
+	"sync"
 
 	"github.com/gr33nbl00d/caddy-revocation-validator/core"
 	"github.com/gr33nbl00d/caddy-revocation-validator/crl/crlloader"
@@ -79,6 +83,44 @@ var c17ChildRe = regexp.MustCompile(`C17CHILD alloc=(\d+) err=(.*)`)
 
 const c17Ceiling = 192 << 20
 const c17Deadline = 300 * time.Second
+
+// c17SerialNoLF: the i-th serial of a list none of whose octets is 0x0A (digits of i in base 254, shifted past 0x0A).
+func c17SerialNoLF(i int) *big.Int {
+	b := []byte{0x41, 0, 0, 0, 0}
+	for k := len(b) - 1; k >= 1; k-- {
+		d := byte(i % 254)
+		i /= 254
+		d++ // 1..254
+		if d >= 0x0A {
+			d++
+		}
+		b[k] = d
+	}
+	return new(big.Int).SetBytes(b)
+}
+
+// c17BuildNoLFFile writes a well-formed RSA-signed v1 CRL with about n entries that contains no 0x0A octet before its
+// signature value (names, times, serials and every length field avoid it): the first "line" of such a DER file is the file.
+func c17BuildNoLFFile(ca *CA, n int, path string) (listed, unlisted *big.Int, entries int) {
+	for try := 0; try < 60; try++ {
+		m := n + try
+		spec := CRLSpec{Version: 0, Alg: sigAlgs[2], AlgParams: true, IssuerRaw: ca.Cert.RawSubject,
+			ThisUpdate: time.Date(2026, 1, 2, 3, 4, 5, 0, time.UTC), Signer: ca.Key}
+		nu := time.Date(2036, 1, 2, 3, 4, 5, 0, time.UTC)
+		spec.NextUpdate = &nu
+		spec.Entries = make([]EntrySpec, m)
+		for i := 0; i < m; i++ {
+			spec.Entries[i] = EntrySpec{Serial: c17SerialNoLF(i + 1), Time: spec.ThisUpdate}
+		}
+		der, _ := spec.Build()
+		if idx := bytes.IndexByte(der, 0x0A); idx >= 0 && idx < len(der)-600 {
+			continue
+		}
+		must(os.WriteFile(path, der, 0600))
+		return c17SerialNoLF(m), c17SerialNoLF(m + 7), m
+	}
+	panic("c17BuildNoLFFile: no 0x0A-free encoding found")
+}
 
 type c17Result struct {
 	N        int
@@ -162,6 +204,78 @@ func c17Measure(r *Run, ca *CA, n int, pemEnc, viaHTTP bool) (c17Result, error) 
 	return res, err
 }
 
+// c17MeasureNoLF: the same path for the 0x0A-free DER CRL (file source): PEM detection looks at "the first line".
+func c17MeasureNoLF(r *Run, n int) (c17Result, error) {
+	raw := mustMarshal(pkix.RDNSequence{{pkix.AttributeTypeAndValue{Type: asn1.ObjectIdentifier{2, 5, 4, 3}, Value: "C17 noLF CA"}}})
+	c17NoLFOnce.Do(func() { c17NoLFCA = NewCA(CAOpts{RawSubject: raw}) })
+	ca := c17NoLFCA
+	dir := scratchDir("c17n")
+	defer os.RemoveAll(dir)
+	crlPath := filepath.Join(dir, "nolf.crl")
+	listed, unlisted, m := c17BuildNoLFFile(ca, n, crlPath)
+	signer := writeFile(dir, "signer.pem", certPEM(ca.Cert))
+	work := filepath.Join(dir, "work")
+	must(os.Mkdir(work, 0700))
+	cfg := VCfg{Mode: "crl_only", WorkDir: work, Storage: "disk", TrustedSigners: []string{signer}, UpdateInterval: "10h", CRLFiles: []string{crlPath}}
+	leafListed := ca.IssueLeaf(LeafOpts{Serial: listed})
+	leafFree := ca.IssueLeaf(LeafOpts{Serial: unlisted})
+	return c17Sampled(r, m, "nolf", func() (string, error) {
+		v, err := Provision(cfg)
+		if err != nil {
+			return "", err
+		}
+		a, _ := v.Verify([][]*x509.Certificate{{leafListed.Cert, ca.Cert}})
+		b, _ := v.Verify([][]*x509.Certificate{{leafFree.Cert, ca.Cert}})
+		v.Close()
+		return a + "/" + b, nil
+	})
+}
+
+var (
+	c17NoLFOnce sync.Once
+	c17NoLFCA   *CA
+)
+
+// c17Sampled runs f while sampling the live heap (forced GC), with the ceiling and the deadline of c17Measure.
+func c17Sampled(r *Run, n int, label string, f func() (string, error)) (c17Result, error) {
+	old := debug.SetGCPercent(20)
+	defer debug.SetGCPercent(old)
+	runtime.GC()
+	runtime.GC()
+	var ms runtime.MemStats
+	runtime.ReadMemStats(&ms)
+	res := c17Result{N: n, Baseline: ms.HeapAlloc}
+	var stop int32
+	var peak uint64
+	tStart := time.Now()
+	doneS := make(chan struct{})
+	go func() {
+		defer close(doneS)
+		var m runtime.MemStats
+		for atomic.LoadInt32(&stop) == 0 {
+			runtime.GC()
+			runtime.ReadMemStats(&m)
+			if m.HeapAlloc > atomic.LoadUint64(&peak) {
+				atomic.StoreUint64(&peak, m.HeapAlloc)
+			}
+			if time.Since(tStart) > c17Deadline || m.HeapAlloc > res.Baseline+c17Ceiling {
+				r.Violate("C17 memory-grows-with-entries "+label, fmt.Sprintf("live heap %d MiB after %v while processing a CRL with %d entries (baseline %d MiB); run aborted",
+					m.HeapAlloc>>20, time.Since(tStart).Round(time.Second), n, res.Baseline>>20), map[string]interface{}{"N": n, "live": m.HeapAlloc})
+				r.Abort()
+			}
+			time.Sleep(5 * time.Millisecond)
+		}
+	}()
+	t0 := time.Now()
+	verdicts, err := f()
+	res.Seconds = time.Since(t0).Seconds()
+	atomic.StoreInt32(&stop, 1)
+	<-doneS
+	res.PeakLive = atomic.LoadUint64(&peak)
+	res.Verdicts = verdicts
+	return res, err
+}
+
 func runC17(r *Run) {
 	r.rule = "full path download -> parse -> store(disk) -> lookup on CRLs with N and 10N entries (DER/PEM, file/HTTP), live heap sampled after forced GC; " +
 		"a pair (N, 10N) is one case, non-trivial when both loads succeed and the listed serial is rejected; peak(10N) - peak(N) must stay below a fixed slack"
@@ -191,6 +305,22 @@ func runC17(r *Run) {
 		if growth > slack {
 			r.Violate("C17 memory-grows-with-entries "+name, fmt.Sprintf("peak live heap %d MiB at N=%d vs %d MiB at N=%d (growth %d MiB > slack %d MiB)",
 				a.PeakLive>>20, small, b.PeakLive>>20, large, growth>>20, slack>>20), map[string]interface{}{"small": a, "large": b})
+		}
+	}
+	// a DER CRL without any 0x0A octet before its signature (the PEM detection reads "the first line" of the file)
+	{
+		a, errA := c17MeasureNoLF(r, small)
+		b, errB := c17MeasureNoLF(r, large)
+		ok := errA == nil && errB == nil && a.Verdicts == "reject/accept" && b.Verdicts == "reject/accept"
+		r.Eval("der-without-0x0a", ok)
+		r.Count("combo:der-without-0x0a")
+		growth := int64(b.PeakLive) - int64(a.PeakLive)
+		r.Sample(map[string]interface{}{"combo": "der without 0x0a, file", "small": a, "large": b, "growth_bytes": growth, "err_small": fmt.Sprint(errA), "err_large": fmt.Sprint(errB)})
+		if !ok {
+			r.Violate("C17 large-crl-not-processed der-without-0x0a", fmt.Sprintf("N=%d: %v %s; N=%d: %v %s", a.N, errA, a.Verdicts, b.N, errB, b.Verdicts), nil)
+		} else if growth > slack {
+			r.Violate("C17 memory-grows-with-entries der-without-0x0a", fmt.Sprintf("peak live heap %d MiB at N=%d vs %d MiB at N=%d (growth %d MiB > slack %d MiB)",
+				a.PeakLive>>20, a.N, b.PeakLive>>20, b.N, growth>>20, slack>>20), map[string]interface{}{"small": a, "large": b})
 		}
 	}
 	c17Phases(r, ca, small, large)
